@@ -13,9 +13,9 @@ open MakoModel.Target MakoModel.Codegen
 
 theorem funrel_ok {f : Fun} {sf : Spec.SFun} (h : FunRel f sf) : FunOK f := by
   cases h with
-  | def_ s ps fl body own mod kind _ _ _ =>
+  | def_ s ps fl body own mod kind _ _ _ _ =>
     exact defShape_wf fl ((emits body).hoist s).1 ((emits body).hoist s).2 ((emits body).stmts s)
-  | body s args body own mod _ _ =>
+  | body s args body own mod _ _ _ =>
     exact WF.bare ((emits body).bodyHoist s).1 ((emits body).bodyHoist s).2 (WS.seq ((emits body).stmts s) (WS.ret _))
 
 /-- the relation between the entries of `topDefs` and `Spec.topLevel` -/
@@ -60,13 +60,13 @@ theorem topdefs_rel (mod : Nat) (f : Name) : ∀ (t : Tmpl) (sc : Scope) (il bf 
     exact ih sc il bf ht h
   | def_ name ps fl b _ =>
     intro sc il bf ht h
-    simp only [Good, Bool.and_eq_true, Bool.not_eq_true', bne_iff_ne, ne_eq] at h
-    obtain ⟨⟨⟨_, _⟩, hc⟩, hg⟩ := h
+    simp only [Good, Bool.and_eq_true, Bool.not_eq_true', bne_iff_ne, ne_eq, ht, if_true] at h
+    obtain ⟨⟨⟨_, hc⟩, hnd⟩, hg⟩ := h
     simp only [topDefs, topFun, hc, Bool.false_eq_true, if_false, Spec.topLevel, lookup]
     split
     · simp only [OptRel]
       refine ⟨?_, rfl, rfl⟩
-      have := FunRel.def_ (defScope b) ps fl b (refsLoop b) mod .def_ (.inl ⟨rfl, rfl⟩) hc hg
+      have := FunRel.def_ (defScope b) ps fl b (refsLoop b) mod .def_ (.inl ⟨rfl, rfl, rfl⟩) hc hnd hg
       simpa [renderCallable, defScope] using this
     · simp only [OptRel]
   | block _ _ _ _ _ => intro sc il bf _ h; simp [Good] at h
@@ -90,7 +90,9 @@ theorem resolve_rel (hG : GoodAll ts) {l : Loc} {E : Spec.Env} {f : Name} (hf : 
     | some p =>
       simp only [Option.map_some, codegenModule]
       have hp : p ∈ ts := List.mem_of_getElem? hm
-      have g := topdefs_rel E.mod f p.1 (mainScope p.1) false false rfl (hG p hp)
+      have hgt := hG p hp
+      simp only [GoodTop, Bool.and_eq_true] at hgt
+      have g := topdefs_rel E.mod f p.1 (mainScope p.1) false false rfl hgt.1
       cases hc : lookup f (topDefs p.1) <;> cases hd : lookup f (Spec.topLevel E.mod p.1) <;>
         simp only [hc, hd, OptRel, Option.map_none, Option.map_some] at g ⊢
       exact ⟨g.1, g.2.1.symm, by rw [g.2.2]; simp⟩
